@@ -1,6 +1,7 @@
 package main
 
 import (
+	"bytes"
 	"crypto/ecdsa"
 	"crypto/sha256"
 	"encoding/binary"
@@ -9,6 +10,7 @@ import (
 	"math"
 	"math/big"
 	"os"
+	"runtime/debug"
 	"sort"
 	"strings"
 	"time"
@@ -18,6 +20,7 @@ import (
 	"github.com/vechain/thor/v2/block"
 	"github.com/vechain/thor/v2/builtin"
 	"github.com/vechain/thor/v2/chain"
+	"github.com/vechain/thor/v2/cmd/thor/node"
 	"github.com/vechain/thor/v2/consensus/upgrade/galactica"
 	"github.com/vechain/thor/v2/packer"
 	"github.com/vechain/thor/v2/thor"
@@ -39,9 +42,10 @@ func harnessErr(format string, a ...any) {
 	os.Exit(3)
 }
 
+// must: an error in the driver's own plumbing is harness trouble (exit 3), never a panic that could pass for one of thor's.
 func must(err error) {
 	if err != nil {
-		panic(err)
+		harnessErr("%v\n%s", err, debug.Stack())
 	}
 }
 
@@ -91,6 +95,11 @@ type env struct {
 	heads   []headFact
 	evs     *evlog
 	baseGP  *big.Int
+	lastHead thor.Bytes32 // the head the last Head event described
+	blocks   *trace.Interner
+	pnode    *node.Node // a real node whose tx pool is the pool under test: its packer loop body consumes the executables
+	pcomm    *sim.Comm
+	ptmp     string
 	levels  []*big.Int // base fees this run may see besides the initial one (the expected cost is logged per level)
 	proposr *packer.Packer
 }
@@ -125,7 +134,7 @@ func newEnv(o envOpts) *env {
 	}
 	e := &env{opt: o, start: now, startNS: now.UnixNano(), byAddr: map[thor.Address]*acct{}, txs: map[thor.Bytes32]*txSpec{},
 		txByH: map[string]*txSpec{}, hashes: trace.NewInterner("h"), ids: trace.NewInterner("i"),
-		idDone: map[thor.Bytes32]bool{}, idRev: map[thor.Bytes32]bool{}}
+		idDone: map[thor.Bytes32]bool{}, idRev: map[thor.Bytes32]bool{}, blocks: trace.NewInterner("b")}
 	e.net = sim.NewNet(so)
 	for i := 0; i < o.rich; i++ {
 		d := e.net.Devs[1+i]
@@ -166,6 +175,10 @@ func newEnv(o envOpts) *env {
 }
 
 func (e *env) close() {
+	if e.pnode != nil {
+		e.pnode.VerifClose()
+		os.RemoveAll(e.ptmp)
+	}
 	e.pool.VerifSetTracer(nil)
 	e.pool.Close()
 	e.pool.VerifRelease()
@@ -284,6 +297,9 @@ type txParams struct {
 	to        *acct
 	drain     *big.Int // the clause transfers this much VTHO away from the origin
 	clauses   int      // > 0: that many plain zero-value clauses (block filler)
+	refID     *thor.Bytes32 // block ref = the first 8 bytes of this block id (proved work only counts then)
+	prioWei   *big.Int      // typed: maxPriorityFeePerGas in wei (overrides maxPrio)
+	minWork   int64         // mine the nonce until the tx's work is at least this
 }
 
 // nextBaseFee is the base fee of the block after the current head (nil before GALACTICA).
@@ -314,6 +330,46 @@ func (e *env) expectedPrio(t *tx.Transaction, gala bool) *big.Int {
 		return t.OverallGasPrice(e.baseGP, work)
 	}
 	return t.EffectivePriorityFeePerGas(new(big.Int).SetUint64(thor.InitialBaseFee), e.baseGP, work)
+}
+
+// prioWith is the priority fee per gas of t under base fee bf (nil: before GALACTICA) with the given proved work,
+// computed with the tx package's own accessors.
+func (e *env) prioWith(t *tx.Transaction, bf *big.Int, work *big.Int) *big.Int {
+	if bf == nil {
+		if t.Type() != tx.TypeLegacy {
+			return new(big.Int)
+		}
+		return t.OverallGasPrice(e.baseGP, work)
+	}
+	return t.EffectivePriorityFeePerGas(bf, e.baseGP, work)
+}
+
+// workOf is the work that counts for t while its block ref is recent enough: its own (unproved) work if the block ref
+// is the prefix of the id of that block on the current chain, else none.
+func (e *env) workOf(t *tx.Transaction) *big.Int {
+	ref := t.BlockRef()
+	best := e.best()
+	if t.Type() != tx.TypeLegacy || ref.Number() > best.Header.Number() {
+		return new(big.Int)
+	}
+	id, err := e.net.God.Repo.NewChain(best.Header.ID()).GetBlockID(ref.Number())
+	if err != nil || !bytes.HasPrefix(id[:], ref[:]) {
+		return new(big.Int)
+	}
+	return t.UnprovedWork()
+}
+
+// prioTables: priority per base fee the run may see ("0": before GALACTICA), with and without the proved work.
+func (e *env) prioTables(t *tx.Transaction) (with, without map[string]any) {
+	with, without = map[string]any{}, map[string]any{}
+	work := e.workOf(t)
+	with["0"], without["0"] = digits(e.prioWith(t, nil, work)), digits(e.prioWith(t, nil, new(big.Int)))
+	if e.net.FC.GALACTICA != math.MaxUint32 {
+		for _, bf := range append([]*big.Int{new(big.Int).SetUint64(thor.InitialBaseFee)}, e.levels...) {
+			with[bf.String()], without[bf.String()] = digits(e.prioWith(t, bf, work)), digits(e.prioWith(t, bf, new(big.Int)))
+		}
+	}
+	return
 }
 
 // feeCap is the most a tx pays per gas: the legacy gas price (proved work excluded), or maxFeePerGas.
@@ -354,6 +410,9 @@ func (e *env) build(p txParams, sameBodyAs *txSpec) *txSpec {
 		if p.typed {
 			b.MaxFeePerGas(new(big.Int).Mul(big.NewInt(p.maxFee), big.NewInt(1e13))).
 				MaxPriorityFeePerGas(new(big.Int).Mul(big.NewInt(p.maxPrio), big.NewInt(1e13)))
+			if p.prioWei != nil {
+				b.MaxPriorityFeePerGas(p.prioWei)
+			}
 		} else {
 			b.GasPriceCoef(p.coef)
 		}
@@ -388,7 +447,24 @@ func (e *env) build(p txParams, sameBodyAs *txSpec) *txSpec {
 			f.SetDelegated(true)
 			b.Features(f)
 		}
+		if p.refID != nil {
+			b.BlockRef(tx.NewBlockRefFromID(*p.refID))
+		}
 		body = b.Build()
+		if p.minWork > 0 {
+			eval := body.EvaluateWork(p.org.addr)
+			want := big.NewInt(p.minWork)
+			n := uint64(e.opt.seed)<<32 | e.nonce<<24
+			for tries := 0; ; tries, n = tries+1, n+1 {
+				if tries > 50_000_000 {
+					harnessErr("could not mine a nonce with work >= %d", p.minWork)
+				}
+				if eval(n).Cmp(want) >= 0 {
+					break
+				}
+			}
+			body = b.Nonce(n).Build()
+		}
 	}
 	var signed *tx.Transaction
 	if p.dlg != nil {
@@ -432,7 +508,9 @@ func (e *env) register(s *txSpec) {
 			costs[bf.String()] = units(new(big.Int).Mul(new(big.Int).SetUint64(t.Gas()), t.EffectiveGasPrice(bf, e.baseGP)))
 		}
 	}
+	prios, priosnw := e.prioTables(t)
 	e.evs.emit(trace.Ev{"e": "Tx", "h": s.h, "tx": map[string]any{
+		"prios": prios, "priosnw": priosnw,
 		"id": s.id, "org": s.org.name, "dlg": dlg, "cost": units(s.cost), "costs": costs, "cap": digits(feeCap(t, e.baseGP)), "prio": digits(e.expectedPrio(t, true)), "prio0": digits(e.expectedPrio(t, false)),
 		"ref": t.BlockRef().Number(), "exp": t.Expiration(), "dep": s.dep, "typed": t.Type() != tx.TypeLegacy,
 	}})
@@ -454,13 +532,40 @@ func (e *env) headEvent() {
 		must(err)
 		en[a.name] = floorUnits(v)
 	}
+	// which universe txs this head's chain contains (walked from the head: correct on any branch, also after a reorg)
 	var incl, rev []string
-	for id := range e.idDone {
-		incl = append(incl, e.idName(id))
+	known := map[thor.Bytes32]*txSpec{}
+	for _, sp := range e.txs {
+		known[sp.tx.ID()] = sp
 	}
-	for id := range e.idRev {
-		rev = append(rev, e.idName(id))
+	e.idDone, e.idRev = map[thor.Bytes32]bool{}, map[thor.Bytes32]bool{}
+	for sum := best; sum.Header.Number() > 0; {
+		if len(sum.Txs) > 0 {
+			receipts, err := e.net.God.Repo.GetBlockReceipts(sum.Header.ID())
+			must(err)
+			for i, id := range sum.Txs {
+				if sp, ok := known[id]; ok {
+					e.idDone[id] = true
+					incl = append(incl, sp.id)
+					if receipts[i].Reverted {
+						e.idRev[id] = true
+						rev = append(rev, sp.id)
+					}
+				}
+			}
+		}
+		parent, err := e.net.God.Repo.GetBlockSummary(sum.Header.ParentID())
+		must(err)
+		sum = parent
 	}
+	// wash refreshes priorities only when the head's OWN base fee differs from its parent's (or the parent has none)
+	refresh := false
+	if h.BaseFee() != nil && h.Number() > 0 {
+		parent, err := e.net.God.Repo.GetBlockSummary(h.ParentID())
+		must(err)
+		refresh = parent.Header.BaseFee() == nil || parent.Header.BaseFee().Cmp(h.BaseFee()) != 0
+	}
+	e.lastHead = h.ID()
 	sort.Strings(incl)
 	sort.Strings(rev)
 	if incl == nil {
@@ -476,6 +581,7 @@ func (e *env) headEvent() {
 		bf = new(big.Int)
 	}
 	e.evs.emit(trace.Ev{"e": "Head", "hd": map[string]any{"num": h.Number(), "incl": incl, "rev": rev, "energy": en, "basefee": digits(bf), "bf": bf.String(),
+		"id": e.blocks.Name(h.ID().Bytes()), "refresh": refresh,
 		"gala": h.Number()+1 >= e.net.FC.GALACTICA, "synced": synced}})
 }
 
@@ -499,25 +605,56 @@ func (e *env) advance(cands []*txSpec) (*block.Block, []*txSpec) {
 	if err != nil {
 		harnessErr("mint: %v", err)
 	}
-	receipts, err := e.net.God.Repo.GetBlockReceipts(blk.Header().ID())
-	must(err)
-	for i, c := range in {
-		id := c.tx.ID()
-		e.idDone[id] = true
-		if receipts[i].Reverted {
-			e.idRev[id] = true
-		}
-	}
 	return blk, in
 }
 
-// checkTiming: the sync status logged for every head must still be what the pool would compute now.
-func (e *env) checkTiming() {
+// syncHead logs the Head event if the repository's best block is not the one last described.
+func (e *env) syncHead() bool {
+	if e.best().Header.ID() == e.lastHead {
+		return false
+	}
+	e.headEvent()
+	return true
+}
+
+// packBlock runs the body of the node's packer loop for one block on a REAL node whose tx pool is the pool under test:
+// Executables() -> flow.Adopt each -> Pack -> commitBlock -> cleanupTransactions (pool.Remove of what Adopt called bad).
+func (e *env) packBlock() (*block.Block, error) {
+	g := e.net.God
+	if e.pnode == nil {
+		dev := e.net.Devs[0]
+		dir, err := os.MkdirTemp("", "verif-poolsim-")
+		must(err)
+		e.ptmp = dir
+		e.pcomm = &sim.Comm{}
+		e.pnode = node.New(&node.Master{PrivateKey: dev.PrivateKey, Beneficiary: &dev.Address}, g.Repo, g.BFT, g.Stater, g.LogDB,
+			e.pool, dir, e.pcomm, e.net.FC, node.Options{SkipLogs: true}, g.Cons, g.Packer)
+	}
+	must(e.pnode.VerifInit()) // blocks minted outside this node moved the chain on
+	best := e.best()
+	flow, err := g.Packer.Schedule(best, best.Header.Timestamp()+thor.BlockInterval())
+	if err != nil {
+		return nil, err
+	}
+	before := len(e.pcomm.Out)
+	if err := e.pnode.VerifDoPack(flow); err != nil {
+		return nil, err
+	}
+	if len(e.pcomm.Out) != before+1 {
+		return nil, errors.New("doPack did not broadcast a block")
+	}
+	return e.pcomm.Out[len(e.pcomm.Out)-1], nil
+}
+
+// timingOK: the sync status logged for every head must still be what the pool would compute now; a run for which it is
+// not (the machine was too slow: a head slid out of / into the 6-interval window) is discarded by the caller.
+func (e *env) timingOK() bool {
 	for _, h := range e.heads {
 		if e.isSynced(h.ts) != h.synced {
-			harnessErr("run too slow: sync status of head %d changed during the run", h.num)
+			return false
 		}
 	}
+	return true
 }
 
 var errClassTable = []struct{ sub, class string }{
